@@ -141,8 +141,19 @@ func ZZ_C09_senderAuth() {
 	if fresh {
 		joining = []*drand.Participant{w.parts[3]}
 	}
+	// a joiner entry may carry the SAME ADDRESS as a member (with the signer's validly self-signed key):
+	// address look-ups that do not stop at the recorded member would then pick the wrong key
+	shadow := zz.Bool("proposal.joiner_shadows_leader_address")
+	if shadow {
+		sh := zzCloneP(w.parts[signer])
+		sh.Address = w.parts[claimed].Address
+		joining = append(joining, sh)
+	}
 	terms := zzTerms(w, 2, claimed, remaining, joining, nil)
 	terms.Leader = listed
+	if shadow {
+		terms.Threshold = 3
+	}
 	if fresh {
 		terms.Threshold = 3 // 4 nodes
 	}
@@ -163,7 +174,7 @@ func ZZ_C09_senderAuth() {
 		}
 		zz.Assert("saved_state_is_proposed", st.current != nil && st.current.State == Proposed)
 	}
-	if signer == claimed && !substituted {
+	if signer == claimed && !substituted && !shadow {
 		zz.Assert("genuine_proposal_is_accepted", err == nil && changed)
 	}
 	_ = util.Contains
